@@ -165,6 +165,7 @@ func Run(tape *Tape, cfg Config, root func()) Result {
 		sort.Ints(s.pctLeft)
 	}
 	s.t0 = time.Now()
+	runBarrier.Add(1) // acquire what the tasks of earlier runs released; the tasks of this run inherit it when they are started
 	raceDisable()
 	defer raceEnable()
 	if !active.CompareAndSwap(nil, s) {
@@ -187,7 +188,10 @@ func Run(tape *Tape, cfg Config, root func()) Result {
 //go:norace
 func Seq() uint64 {
 	if s := active.Load(); s != nil {
-		return s.seq.Add(1)
+		raceDisable() // the stamp counter is the simulator's own: no happens-before edge between the callers
+		n := s.seq.Add(1)
+		raceEnable()
+		return n
 	}
 	return 0
 }
@@ -226,9 +230,15 @@ func (s *Sim) taskMain(t *Task, site int, fn func()) {
 	fn()
 }
 
+// runBarrier orders the tasks of one simulation before the tasks of the next one in the same process (visible to the
+// race detector on purpose): a package-level variable of pandora written in one run and read in the next is not a race
+// of pandora's, the runs are sequential.
+var runBarrier atomic.Int64
+
 //go:norace
 func (s *Sim) exit(t *Task) {
 	r := recover()
+	runBarrier.Add(1) // release (and acquire): this task's accesses happen before everything of a later run
 	raceDisable()
 	defer raceEnable()
 	s.mu.Lock()
@@ -381,7 +391,12 @@ func Tick() {
 	if s == nil {
 		return
 	}
-	if n := s.ticks.Add(1); n > s.tickLimit {
+	// (the counter is the simulator's: bumping it must not order pandora's tasks with one another in the eyes of the
+	// race detector - an atomic read-modify-write is an acquire and a release, and this one runs at every loop back-edge)
+	raceDisable()
+	n := s.ticks.Add(1)
+	raceEnable()
+	if n > s.tickLimit {
 		raceDisable()
 		t := s.task()
 		raceEnable()
@@ -868,3 +883,17 @@ func CurTask() int {
 	}
 	return t.ID
 }
+
+// HMutex is the mutex of the simulator's and the harness's own bookkeeping (event logs, the simulated network and disk,
+// scripted peers). It excludes like a sync.Mutex, but the race detector does not see it: a lock of the harness must not
+// create happens-before edges between pandora's tasks that a real run (real sockets, a real disk, no recorder) would not
+// have - with visible harness locks nearly every pair of instances was ordered through some recorder, which hid races in
+// pandora. The detector may then report the harness's own accesses under such a lock; the driver classifies reports
+// whose accessing frame is harness code as harness bookkeeping and ignores them.
+type HMutex struct{ mu sync.Mutex }
+
+//go:norace
+func (m *HMutex) Lock() { raceDisable(); m.mu.Lock(); raceEnable() }
+
+//go:norace
+func (m *HMutex) Unlock() { raceDisable(); m.mu.Unlock(); raceEnable() }
